@@ -229,6 +229,9 @@ class KroneckerProductLinearOperator(LinearOperator):
             Float[torch.Tensor, "..."],  # Note that in case of a tuple the second term size depends on num_tridiag
         ],
     ]:
+        # Raise on an incompatible right-hand side (the reshapes below would accept other row counts)
+        _matmul_broadcast_shape(self.shape, rhs.shape)
+
         # Computes solve by exploiting the identity (A \kron B)^-1 = A^-1 \kron B^-1
         # we perform the solve first before worrying about any tridiagonal matrices
 
